@@ -2,7 +2,7 @@ SPEC = {
     'id': 'C21',
     'harness': 'hC21',
     'coq_dir': 'C21',
-    'claimed': False,
+    'claimed': True,
     'theorems': ['C21_init_consistent', 'C21_event_preserves', 'C21_consistent_all_histories',
                  'C21_block_txs_gone', 'C21_refuted_shash', 'C21_shash_partial',
                  'C21_oracle_accepts_invariant', 'C21_oracle_accepts_short', 'C21_oracle_accepts_block',
